@@ -6,14 +6,16 @@ from checks import runner_common as rc, update_common as uc
 PROPERTY = "C05"
 LEVEL = "proof"
 TRUSTED = ["the update function abstracted by its contract (returns a positive dt, advances the state by one, appends one column to the buffer)",
-           "DataHandler.save_time_step abstracted: a frame is what it is handed (attrs, data, buffer); the reader units ASSUME the file holds exactly those frames "
-           "(the HDF5 layout written by save_time_step - squeeze of the leading axis, group names - is covered by the bounded native run)",
+           "in the runner units DataHandler.save_time_step is abstracted: a frame is what it is handed (attrs, data, buffer); the HDF5 layout it writes (frame numbering, labels, "
+           "single-row buffers stored as vectors for every buffer size, probe buffers as probes x buffer) is the postcondition of its own unit over the abstract store "
+           "(checks/writer_common.py), which is the file model the reader units start from",
            "numpy as used by the reader (checks/reader_common.py: concatenate of equal-shaped blocks, boolean-mask selection resolved through the prefix lemma, cumsum, strided slice)",
            "numpy model (zeros, column store)"]
 ASSUMPTIONS = ["save_every >= 1, dt_init > 0, every dt returned by the update is > 0 (C12.positive)",
                "reader side: DynamicsData.from_hdf5 (frame loop cut at an invariant, symbolic number of frames and buffer size), Solution.times and the range handed over by "
-               "load_tdgl_data are under contract against the writer's postcondition; what save_time_step makes of the buffer on disk (squeeze / ranks) is decided only by the "
-               "bounded native run within save_every <= N+2, N <= 9 (also the replay harness of every obligation here)",
+               "load_tdgl_data are under contract against the writer's postcondition; DataHandler.save_time_step is under contract over the abstract HDF5 store (symbolic buffer "
+               "size, probe count, array sizes); that real h5py stores and returns arrays of these ranks is the bounded native run (save_every <= N+2, N <= 9; also the replay "
+               "harness of every obligation here)",
                "tqdm, logging and the monitor subprocess are outside the contract (tmp_file None)"]
 EXPLANATION = "loop invariant with ghost history T(j), dts(j), S(n) on the real Runner._run_stage for symbolic save_every, end_time and step sequence"
 F = "tdgl.solver.runner:Runner."
@@ -105,6 +107,8 @@ def units():
                  lambda m=None: __import__("checks.reader_common", fromlist=["x"]).run_times(m, prefixes=P), props=["C05"], timeout=300),
             Unit("Solution.load_tdgl_data[records over the full range]", "tdgl.solution.solution:Solution.load_tdgl_data",
                  lambda m=None: __import__("checks.c14", fromlist=["x"]).run_solve_step(m, prefixes=P), props=["C05", "C14"], timeout=300),
+            Unit("DataHandler.save_time_step[layout]", "tdgl.solver.runner:DataHandler.save_time_step",
+                 lambda m=None: __import__("checks.writer_common", fromlist=["x"]).run_writer_layout(m, prefixes=P), props=["C05", "C15"], timeout=300),
             Unit("update[no screening, static A]", "tdgl.solver.solver:TDGLSolver.update", _upd(False, False), props=["C05"], timeout=900),
             Unit("update[screening, static A]", "tdgl.solver.solver:TDGLSolver.update", _upd(True, False), props=["C05"], timeout=900),
             _h.bounded_unit("frames, times and records of real runs [bounded]", "tdgl.solver.runner:Runner / tdgl.solution.data:DynamicsData (real h5py)", "C05", _bounded_quick, "frames_times_and_records_match_the_executable_specification[N<=5 exhaustive]", timeout=900)]
@@ -119,6 +123,12 @@ def replay(unit, obl):
     if unit.startswith("update["):
         from checks import update_native
         return update_native.replay(unit, obl)
+    if unit.startswith("DataHandler.save_time_step[layout]"):
+        import tdgl
+        from checks import writer_common
+        bad, n = writer_common.native(0)
+        if bad:
+            return dict(confirmed=True, failing_input=bad[0], n_failing=len(bad), evaluations=n, tdgl_file=tdgl.__file__)
     from checks import runner_native
     r = runner_native.replay(unit, obl)
     if not r.get("confirmed") and "interrupt" in unit:
@@ -132,7 +142,7 @@ R_ = "tdgl.solver.runner"
 S_ = "tdgl.solver.solver"
 DD_ = "tdgl.solution.data"
 SO_ = "tdgl.solution.solution"
-MUTANTS = [
+MUTANTS = __import__("checks.writer_common", fromlist=["MUTANTS"]).MUTANTS + [
     dict(name="reader drops the last frame's records", edits=[(DD_, "for i in range(step_min, step_max + 1):\n                grp = h5file[f\"data/{i}\"]\n                if \"running_state\" not in grp:", "for i in range(step_min, step_max):\n                grp = h5file[f\"data/{i}\"]\n                if \"running_state\" not in grp:")], units=["DynamicsData.from_hdf5[file written by the runner]"]),
     dict(name="reader keeps the zero padding", edits=[(DD_, "            mask = dt > 0\n", "            mask = dt > -1\n")], units=["DynamicsData.from_hdf5[file written by the runner]"]),
     dict(name="reader: probe potentials not masked", edits=[(DD_, "mu = np.concatenate(mus, axis=1)[..., mask]", "mu = np.concatenate(mus, axis=1)")], units=["DynamicsData.from_hdf5[file written by the runner]"]),
